@@ -7,6 +7,8 @@ vars == <<in, out, ph>>
 
 InjSeqs(S, n) == {s \in [1..n -> S] : \A i, j \in 1..n : i # j => s[i] # s[j]}
 Axes1 == UNION {InjSeqs(U, n) : n \in 0..Cardinality(U)}
+\* later arrays may also carry a label between those of the first (non-integral when they are float axes)
+AxesB == UNION {InjSeqs(U \cup {3}, n) : n \in 0..3}
 NoIn == [fam |-> "", arrs |-> <<>>, join |-> "outer", sort |-> FALSE, axis |-> <<>>]
 A1(L, k) == Fresh(<<"x">>, <<"i">>, <<L>>, <<k>>, "i", k, 100 * k)
 
@@ -23,8 +25,9 @@ Init == in = NoIn /\ out = <<>> /\ ph = 0
 
 ChooseArrays ==
   /\ ph = 0 /\ ph' = 1 /\ out' = out
-  /\ \/ \E n \in 1..MaxArr : \E Ls \in [1..n -> Axes1] :
-          in' = [NoIn EXCEPT !.fam = "1d", !.arrs = [k \in 1..n |-> A1(Ls[k], k)]]
+  /\ \/ \E n \in 1..MaxArr : \E Ls \in [1..n -> AxesB] :
+          /\ Ls[1] \in Axes1 /\ (n >= 3 => Ls[3] \in Axes1)
+          /\ in' = [NoIn EXCEPT !.fam = "1d", !.arrs = [k \in 1..n |-> A1(Ls[k], k)]]
      \/ \E x1, x2 \in XMenu : \E y1, y2 \in YMenu : \E kind \in {"yx", "x", "yz", "y"} : \E dt \in {"i", "f"} :
           in' = [NoIn EXCEPT !.fam = "2d",
                    !.arrs = <<Fresh(<<"x", "y">>, <<"i", "i">>, <<x1, y1>>, <<1, 2>>, dt, 1, 100), Second(kind, x2, y2)>>]
